@@ -82,6 +82,26 @@ func main() {
 			}
 			fn.WriteTo(os.Stdout)
 		}
+	case "inventory":
+		// writes the function inventory of the current tree (all builds) to stdout
+		set := map[string]bool{}
+		for _, goos := range []string{"", "darwin", "freebsd", "openbsd", "windows"} {
+			p, err := core.Load(goos)
+			if err != nil {
+				fmt.Fprintln(os.Stderr, err)
+				os.Exit(2)
+			}
+			for _, k := range p.Inventory() {
+				set[k] = true
+			}
+		}
+		var keys []string
+		for k := range set {
+			keys = append(keys, k)
+		}
+		sort.Strings(keys)
+		fmt.Println("# Declared functions of the module in the verified tree (all builds); see checker/core/inventory.go.")
+		fmt.Println(strings.Join(keys, "\n"))
 	case "list":
 		var ids []string
 		for id := range rules.All {
